@@ -371,6 +371,33 @@ func runForIn(r *engine.Run) {
 		{`Object.create(Number.prototype)`, ""}, {`Object.create(Boolean.prototype)`, ""}, {`Object.create(TypeError.prototype)`, ""},
 		{`(function(){}).bind(null)`, ""}, {`Object`, ""}, {`Array`, ""}, {`String`, ""}, {`Number`, ""}, {`Date`, ""}, {`RegExp`, ""}, {`Error`, ""}, {`Function`, ""}, {`Boolean`, ""},
 	}
+	// String subjects over the code-unit classes: every string of length <= 3 over one character per
+	// UTF-8 width (1, 2, 3 bytes) plus an astral pair (4 bytes, 2 UTF-16 units) and NUL, as a primitive
+	// and as a String object: for-in shows exactly the index names 0..units-1 (ES5 15.5.5.2), nothing else.
+	units := []struct {
+		lit string
+		n   int
+	}{{"a", 1}, {`\u00e9`, 1}, {`\u20ac`, 1}, {`\ud83d\ude00`, 2}, {`\u0000`, 1}}
+	var gen func(lit string, n, depth int)
+	gen = func(lit string, n, depth int) {
+		if depth > 0 {
+			idx := make([]string, n)
+			for i := range idx {
+				idx[i] = fmt.Sprint(i)
+			}
+			want := strings.Join(idx, ",")
+			subjects = append(subjects, struct{ expr, want string }{`"` + lit + `"`, want}, struct{ expr, want string }{`new String("` + lit + `")`, want},
+				struct{ expr, want string }{`Object.keys(new String("` + lit + `"))`, want})
+		}
+		if depth == 3 {
+			return
+		}
+		for _, u := range units {
+			gen(lit+u.lit, n+u.n, depth+1)
+		}
+	}
+	gen("", 0, 0)
+	r.Bound("forin.string_subjects", "every string of length <= 3 over {1-, 2-, 3-byte, astral pair, NUL} x {primitive, String object, Object.keys}")
 	for _, cfg := range configs {
 		vm := build(cfg)
 		for _, s := range subjects {
@@ -379,6 +406,9 @@ func runForIn(r *engine.Run) {
 				continue
 			}
 			src := fmt.Sprintf(`(function(o){ var k = []; for (var n in o) k.push(n); return k.join(); })(%s)`, s.expr)
+			if strings.HasPrefix(s.expr, "Object.keys(") {
+				src = fmt.Sprintf(`%s.join()`, s.expr)
+			}
 			res := ox.Run(vm, src)
 			obs := "error"
 			if res.Err == nil && !res.Panicked {
